@@ -4,6 +4,7 @@ set -u
 patch=$1; shift
 cd /verif
 git -C /repo diff --quiet || { echo "/repo is dirty"; exit 2; }
+rm -rf /verif/.cache/evidence.bak; cp -r /verif/evidence /verif/.cache/evidence.bak
 git -C /repo apply "$patch" || { echo "patch does not apply"; exit 2; }
 for p in "$@"; do
   echo "=== $p with $(basename $(dirname $patch))"
@@ -11,4 +12,6 @@ for p in "$@"; do
   echo "exit=$?"
 done
 git -C /repo checkout -- .
+rm -rf /verif/evidence; mv /verif/.cache/evidence.bak /verif/evidence
+/verif/.cache/target/release/zvt2coq /repo /verif >/dev/null 2>&1
 git -C /repo status --short
